@@ -132,6 +132,9 @@ def wrap_container(arr, cont, name=None, index=None):
         return pd.Series(arr, name=name, index=index).dt.tz_localize("UTC").dt.tz_convert("Europe/Dublin")
     if cont == "nullable":           # pandas masked extension arrays (Int64 / Float64 / boolean)
         return pd.Series(pd.array(arr, dtype={"i": "Int", "u": "UInt", "f": "Float"}[arr.dtype.kind] + str(arr.dtype.itemsize * 8) if arr.dtype.kind != "b" else "boolean"), name=name)
+    if cont in ("nullable_int", "arrow_int"):      # integer columns that carry real missing values (pandas Int64 / int64[pyarrow])
+        vals = [None if (isinstance(x, float) and x != x) else int(x) for x in np.asarray(arr).tolist()]
+        return pd.Series(pd.array(vals, dtype=("Int64" if cont == "nullable_int" else pd.ArrowDtype(pa.int64()))), name=name)
     if cont == "frame1":
         return pd.DataFrame({name or "v": arr}, index=index)
     if cont == "plframe":
